@@ -174,3 +174,196 @@ func ruleFreshDecode(c *Ctx, rule string) {
 		c.undecided(rule, "floor:decodes-in-loops", token.NoPos, fmt.Sprintf("only %d JSON decodes inside loops found in internal/api (of %d decodes)", nLoopDecodes, nDecodes))
 	}
 }
+
+// ---- R18g: no argument of an engine call made in a loop carries state from earlier iterations -------------
+//
+// Same family as the fresh decoding targets: a value handed to backend.Ledger inside a loop (the parameters of a
+// bulk element: idempotency key, dry-run flag, the decoded request) must be built in that iteration. A local
+// declared before the loop and assigned inside it (`parameters` hoisted, the key set only when the element has
+// one) hands the previous element's key to the next element: that element is then answered from the other
+// element's log instead of being executed.
+func ruleLoopCarriedArgs(c *Ctx, rule string, floor int) {
+	ledgerIface := c.Named(modPath+"/internal/api/backend", "Ledger")
+	if ledgerIface == nil {
+		c.undecided(rule, "anchor:backend.Ledger", token.NoPos, "interface not found")
+		return
+	}
+	nCalls := 0
+	for _, fn := range c.RepoFuncs() {
+		pk := fnPkgPath(origin(fn))
+		if !strings.HasPrefix(pk, modPath+"/internal/api") || len(fn.Blocks) == 0 || fn.Synthetic != "" {
+			continue
+		}
+		if strings.HasSuffix(c.Fset.Position(fn.Pos()).Filename, "_test.go") {
+			continue
+		}
+		loops := naturalLoops(fn)
+		if len(loops) == 0 {
+			continue
+		}
+		seen := map[string]int{}
+		for _, b := range fn.Blocks {
+			for _, ins := range b.Instrs {
+				call, ok := ins.(*ssa.Call)
+				if !ok || !call.Call.IsInvoke() || namedOf(call.Call.Value.Type()) != ledgerIface {
+					continue
+				}
+				// innermost loop containing the call
+				var body map[*ssa.BasicBlock]bool
+				for _, lb := range loops {
+					if lb[b] && (body == nil || len(lb) < len(body)) {
+						body = lb
+					}
+				}
+				if body == nil {
+					continue
+				}
+				nCalls++
+				c.seeFn(fn)
+				key := fmt.Sprintf("%s:%s", fnName(fn), call.Call.Method.Name())
+				seen[key]++
+				if n := seen[key]; n > 1 {
+					key = fmt.Sprintf("%s#%d", key, n)
+				}
+				bad := ""
+				for ai, a := range call.Call.Args {
+					if isNamed(a.Type(), "context", "Context") {
+						continue
+					}
+					if why := carriedAcrossIterations(a, call, body, 0, map[ssa.Value]bool{}); why != "" {
+						bad = fmt.Sprintf("argument %d of %s is %s", ai+1, call.Call.Method.Name(), why)
+						break
+					}
+				}
+				c.check(bad == "", rule, key+":arguments-built-in-the-iteration", call.Pos(),
+					"no argument of the engine call reads a variable that outlives the iteration and is assigned in the loop",
+					bad+": an element of the bulk is executed with values left by the elements before it (e.g. their idempotency key, so it is answered from their log instead of being executed)")
+			}
+		}
+	}
+	c.Info["engine_calls_in_loops"] = nCalls
+	if nCalls < floor {
+		c.undecided(rule, "floor:engine-calls-in-loops", token.NoPos, fmt.Sprintf("expected at least %d backend.Ledger calls inside the bulk loop, found %d", floor, nCalls))
+	}
+}
+
+// carriedAcrossIterations: does v read a local that is declared outside the loop and assigned inside it (or a phi
+// of the loop head fed from the body)? Returns a description, or "".
+func carriedAcrossIterations(v ssa.Value, use ssa.Instruction, body map[*ssa.BasicBlock]bool, depth int, seen map[ssa.Value]bool) string {
+	// a store made in the loop is harmless when it is made again in every iteration before the use
+	precedesUse := func(st *ssa.Store) bool {
+		if st.Block() == use.Block() {
+			for _, ins := range st.Block().Instrs {
+				if ins == ssa.Instruction(st) {
+					return true
+				}
+				if ins == use {
+					return false
+				}
+			}
+		}
+		return st.Block().Dominates(use.Block())
+	}
+	if v == nil || depth > 10 || seen[v] {
+		return ""
+	}
+	seen[v] = true
+	cellOf := func(addr ssa.Value) *ssa.Alloc {
+		for i := 0; i < 10; i++ {
+			switch x := addr.(type) {
+			case *ssa.Alloc:
+				return x
+			case *ssa.FieldAddr:
+				addr = x.X
+			case *ssa.IndexAddr:
+				addr = x.X
+			default:
+				return nil
+			}
+		}
+		return nil
+	}
+	switch x := v.(type) {
+	case *ssa.UnOp:
+		if x.Op != token.MUL {
+			return carriedAcrossIterations(x.X, use, body, depth+1, seen)
+		}
+		if a := cellOf(x.X); a != nil && !body[a.Block()] {
+			for _, r := range allRefsToCell(a) {
+				if st, ok := r.(*ssa.Store); ok && body[st.Block()] && !precedesUse(st) {
+					return "read from the local `" + a.Comment + "`, declared before the loop and assigned inside it"
+				}
+			}
+		}
+		return ""
+	case *ssa.Phi:
+		if body[x.Block()] {
+			for i, e := range x.Edges {
+				p := x.Block().Preds[i]
+				if !body[p] {
+					continue
+				}
+				// an edge from inside the loop into a phi of the loop: the value of an earlier iteration, when the
+				// phi also has an entry from outside (loop head)
+				for j := range x.Edges {
+					if !body[x.Block().Preds[j]] {
+						if _, isConst := e.(*ssa.Const); !isConst {
+							return "a value carried around the loop (`" + x.Comment + "`)"
+						}
+					}
+				}
+			}
+		}
+		for _, e := range x.Edges {
+			if why := carriedAcrossIterations(e, use, body, depth+1, seen); why != "" {
+				return why
+			}
+		}
+		return ""
+	case *ssa.MakeInterface:
+		return carriedAcrossIterations(x.X, use, body, depth+1, seen)
+	case *ssa.ChangeType:
+		return carriedAcrossIterations(x.X, use, body, depth+1, seen)
+	case *ssa.Convert:
+		return carriedAcrossIterations(x.X, use, body, depth+1, seen)
+	case *ssa.Field:
+		return carriedAcrossIterations(x.X, use, body, depth+1, seen)
+	case *ssa.Slice:
+		return carriedAcrossIterations(x.X, use, body, depth+1, seen)
+	case *ssa.Alloc:
+		if !body[x.Block()] {
+			for _, r := range allRefsToCell(x) {
+				if st, ok := r.(*ssa.Store); ok && body[st.Block()] && !precedesUse(st) {
+					return "the address of the local `" + x.Comment + "`, declared before the loop and assigned inside it"
+				}
+			}
+		}
+		return ""
+	}
+	return ""
+}
+
+// allRefsToCell: the instructions that refer to the cell or to addresses of its fields/elements.
+func allRefsToCell(a *ssa.Alloc) []ssa.Instruction {
+	var out []ssa.Instruction
+	var walk func(v ssa.Value, depth int)
+	walk = func(v ssa.Value, depth int) {
+		if depth > 6 || v.Referrers() == nil {
+			return
+		}
+		for _, r := range *v.Referrers() {
+			switch x := r.(type) {
+			case *ssa.Store:
+				if x.Addr == v {
+					out = append(out, x)
+				}
+			case *ssa.FieldAddr:
+				walk(x, depth+1)
+			case *ssa.IndexAddr:
+				walk(x, depth+1)
+			}
+		}
+	}
+	walk(a, 0)
+	return out
+}
